@@ -20,6 +20,11 @@ pub trait KKTSolver<T: FloatT>: HasLinearSolverInfo {
     fn verif_view(&self) -> Option<crate::verif::KKTView> {
         None
     }
+    #[cfg(clarabel_verif)]
+    /// internal (solution, right-hand side) vectors of the last solve (verification hook)
+    fn verif_last_solve(&self) -> Option<(Vec<f64>, Vec<f64>)> {
+        None
+    }
 }
 
 pub trait HasLinearSolverInfo {
